@@ -52,14 +52,13 @@ def coltab(line):
 class Ref:
     """lines: list of str (no terminators).  Cursor (r, o); o indexes the characters of the line."""
 
-    def __init__(self, lines, rows, kf_g=False):
+    def __init__(self, lines, rows):
         self.L = lines
         self.rows = rows
         self.r = self.o = 0
         self.xcol = 0
         self.top = 0
         self.last = None          # (cmd, char) of the last f F t T
-        self.kf_g = kf_g          # simulate KF-G-OVERRUN
         self.flat = ''.join(l + '\n' for l in lines)
         self.C = ''.join(cls(c) for c in self.flat)
         self.starts = []
@@ -245,8 +244,6 @@ class Ref:
             r, kind = min(r + c - 1, n - 1), 'line'
         elif key == 'G':
             r, kind = (min(c - 1, n - 1) if has else n - 1), 'line'
-            if has and c - 1 > n - 1 and self.kf_g:
-                kind = 'line0'
         elif key == 'H':
             r, kind = max(0, min(self.top + c - 1, n - 1)), 'line'
         elif key == 'L':
@@ -562,8 +559,6 @@ def check_case(exe, case, res):
         if (row, off) != want:
             bad = {'what': 'cursor after the motions differs from the reference semantics',
                    'expected': list(want), 'observed': [row, off]}
-            if Ref(ls, rows - 1, kf_g=True).run(prog) == (row, off):
-                bad['kf'] = 'KF-G-OVERRUN'
     return bad, (row, off)
 
 
